@@ -688,8 +688,24 @@ def fft_route_items(g, ft, pr):
                f'def {name}PadsWithPad2dQ : Bool := true')
 
 
+def force_fallbacks():
+    """self-test aid: make every item use its fallback text (what the check sees after a refactor the translator does
+    not understand); `gen_c01.py --fallbacks <repo>` prints that file, which Props/C01.lean must still build against"""
+    import pyexpr2lean as P
+    orig = P.Gen.item
+
+    def item(self, name, source, node_fn, build, fallback):
+        def bad():
+            raise P.Untranslatable('forced fallback')
+        return orig(self, name, source, node_fn, bad, fallback)
+    P.Gen.item = item
+
+
 if __name__ == '__main__':
     import sys
+    if '--fallbacks' in sys.argv:
+        sys.argv.remove('--fallbacks')
+        force_fallbacks()
     text, items = generate(sys.argv[1] if len(sys.argv) > 1 else '/repo')
     print(text)
     for it in items:
